@@ -14,27 +14,27 @@ variable {α : Type}
 /-- Times non-decreasing along the list (the clock is monotone). -/
 def Sorted (l : List (Nat × α)) : Prop := l.Pairwise (fun a b => a.1 ≤ b.1)
 
-def Good (cfg : Cfg) (now : Nat) (r : List (Nat × α)) : Prop :=
+def Good (cfg : Cfg α) (now : Nat) (r : List (Nat × α)) : Prop :=
   (∀ n, cfg.bufferSize = some n → r.length ≤ n) ∧ (∀ w, cfg.window = some w → ∀ x ∈ r, now - x.1 ≤ w)
 
-def IsRetained (cfg : Cfg) (now : Nat) (all r : List (Nat × α)) : Prop :=
+def IsRetained (cfg : Cfg α) (now : Nat) (all r : List (Nat × α)) : Prop :=
   r <:+ all ∧ Good cfg now r ∧ ∀ r', r' <:+ all → Good cfg now r' → r' <:+ r
 
-theorem Good.sublist {cfg : Cfg} {now : Nat} {r r' : List (Nat × α)} (h : List.Sublist r' r) (hg : Good cfg now r) :
+theorem Good.sublist {cfg : Cfg α} {now : Nat} {r r' : List (Nat × α)} (h : List.Sublist r' r) (hg : Good cfg now r) :
     Good cfg now r' :=
   ⟨fun n hn => Nat.le_trans h.length_le (hg.1 n hn), fun w hw x hx => hg.2 w hw x (h.subset hx)⟩
 
-theorem Good.mono {cfg : Cfg} {now now' : Nat} {r : List (Nat × α)} (h : now' ≤ now) (hg : Good cfg now r) :
+theorem Good.mono {cfg : Cfg α} {now now' : Nat} {r : List (Nat × α)} (h : now' ≤ now) (hg : Good cfg now r) :
     Good cfg now' r :=
   ⟨hg.1, fun w hw x hx => Nat.le_trans (Nat.sub_le_sub_right h _) (hg.2 w hw x hx)⟩
 
-theorem Good.nil (cfg : Cfg) (now : Nat) : Good cfg now ([] : List (Nat × α)) :=
+theorem Good.nil (cfg : Cfg α) (now : Nat) : Good cfg now ([] : List (Nat × α)) :=
   ⟨fun _ _ => Nat.zero_le _, fun _ _ _ hx => by simp at hx⟩
 
 theorem suffix_antisymm {β : Type} {a b : List β} (h1 : a <:+ b) (h2 : b <:+ a) : a = b :=
   h1.eq_of_length_le h2.length_le
 
-theorem IsRetained.unique {cfg : Cfg} {now : Nat} {all r1 r2 : List (Nat × α)}
+theorem IsRetained.unique {cfg : Cfg α} {now : Nat} {all r1 r2 : List (Nat × α)}
     (h1 : IsRetained cfg now all r1) (h2 : IsRetained cfg now all r2) : r1 = r2 :=
   suffix_antisymm (h2.2.2 r1 h1.1 h1.2.1) (h1.2.2 r2 h2.1 h2.2.1)
 
@@ -130,7 +130,7 @@ theorem Sorted.suffix {q r : List (Nat × α)} (hs : Sorted q) (h : r <:+ q) : S
   List.Pairwise.sublist h.sublist hs
 
 /-- **`_trim now` computes the retained values** of whatever time-sorted list it is applied to. -/
-theorem trim_isRetained (cfg : Cfg) (now : Nat) (q : List (Nat × α)) (hs : Sorted q) :
+theorem trim_isRetained (cfg : Cfg α) (now : Nat) (q : List (Nat × α)) (hs : Sorted q) :
     IsRetained cfg now q (trim cfg now q) := by
   have h1 : trimCount cfg.bufferSize q <:+ q := trimCount_suffix _ _
   have h2 : trim cfg now q <:+ trimCount cfg.bufferSize q := trimAge_suffix _ _ _
@@ -148,7 +148,7 @@ theorem trim_isRetained (cfg : Cfg) (now : Nat) (q : List (Nat × α)) (hs : Sor
 
 /-- Trimming an already (earlier) trimmed queue again later gives what trimming the whole history
 once would give: values dropped earlier stay dropped because ages only grow. -/
-theorem trim_of_retained {cfg : Cfg} {now now' : Nat} {all q : List (Nat × α)} (hs : Sorted all)
+theorem trim_of_retained {cfg : Cfg α} {now now' : Nat} {all q : List (Nat × α)} (hs : Sorted all)
     (hq : IsRetained cfg now' all q) (hn : now' ≤ now) : IsRetained cfg now all (trim cfg now q) := by
   have hsq : Sorted q := hs.suffix hq.1
   have ht := trim_isRetained cfg now q hsq
@@ -157,7 +157,7 @@ theorem trim_of_retained {cfg : Cfg} {now now' : Nat} {all q : List (Nat × α)}
   exact ht.2.2 r' (hq.2.2 r' hr' (hg.mono hn)) hg
 
 /-- Same for `queue.append((now, v)); _trim(now)`. -/
-theorem trim_append_of_retained {cfg : Cfg} {now now' : Nat} {all q : List (Nat × α)} (x : Nat × α)
+theorem trim_append_of_retained {cfg : Cfg α} {now now' : Nat} {all q : List (Nat × α)} (x : Nat × α)
     (hs : Sorted (all ++ [x])) (hq : IsRetained cfg now' all q) (hn : now' ≤ now) :
     IsRetained cfg now (all ++ [x]) (trim cfg now (q ++ [x])) := by
   have hqx : q ++ [x] <:+ all ++ [x] := by
